@@ -14,7 +14,10 @@ RULE = ('Hypothesis-generated segment sequences. (a) well-nested shapes: 1..3 in
         'HL02 not on the current path / non-numeric / missing, LX out of sequence; oracle = multiset of (level,code) popped after '
         'each segment and after cleanup() equals the independent recount. (b) arbitrary arrangements (random token sequences; '
         'nested shapes with a header/trailer deleted, duplicated, swapped or orphaned), also with adversarially chosen trailer '
-        'counts/ids taken from a first pass: oracle = no exception and >=1 envelope error. Non-trivial = >=2 sets or groups, or '
+        'counts/ids taken from a first pass: oracle = no exception and >=1 envelope error. (c) the validator on generated '
+        'interchanges whose 2..4 groups come from two or three different maps of one version (A B A patterns included), envelope '
+        'consistent, one LX number of an 837 group changed in 40%: service-line errors in the error tree = recount (837 groups '
+        'only), and no envelope error. Non-trivial = >=2 sets or groups, or '
         '>=1 perturbation; distinct by digest of the segment list.')
 ASSUMPTIONS = ['HL-parent verdicts are compared only up to the first bad parent or second root HL of a set (recovery afterwards is unspecified)',
                'LX01 with leading zeros is not generated', 'delimiters are ~ * : (C12 covers others)']
@@ -58,7 +61,105 @@ def _env_only(lst):
     return [x for x in lst if x in envmodel.ENV_CODES]
 
 
+def check_validated(case):
+    """The same equivalence seen through the validator, which switches maps (and the 837 service-line check) at every
+    functional group: an interchange whose groups come from several maps, envelope consistent, LX numbers of its 837
+    groups either in sequence or with one drawn number changed."""
+    from .. import observe, x12ref
+    out = core.Outcome()
+    text = case['text']
+    meta = case.get('meta', {})
+    parts = meta.get('parts', [])
+    o = observe.run_validator(text, ack=False)
+    if o.exc is not None:
+        out.fail(core.exc_bucket(o.exc, 'validated:exception'), core.exc_detail(o.exc))
+        return out
+    d, segs = x12ref.tokenize(text)
+    # independent recount: LX numbering is checked in groups validated with an 837 map only, and restarts at every CLM
+    want = []
+    gi = -1
+    isa = -1
+    st = -1
+    pos = 0
+    lx = 0
+    for s in segs:
+        if s.id == 'ISA':
+            isa += 1
+            gidx = -1
+        elif s.id == 'GS':
+            gi += 1
+            gidx += 1
+            st = -1
+        elif s.id == 'ST':
+            st += 1
+            pos = 0
+            lx = 0
+        pos += 1
+        is837 = 0 <= gi < len(parts) and parts[gi].startswith('837')
+        if s.id == 'CLM':
+            lx = 0
+        elif s.id == 'LX' and is837:
+            lx += 1
+            if (s.elems[0][0] if s.elems else '') != str(lx):
+                want.append((isa, gidx, st, pos))
+    got = sorted((e['isa'], e['gs'], e['st'], e['pos']) for e in o.errors if e['level'] == 'seg' and e['code'] == 'LX')
+    env = [(e['level'], e['code']) for e in o.errors if e['level'] in ('isa', 'gs', 'st') and e['seg_id'] in (None, 'ISA', 'GS', 'ST', 'SE', 'GE', 'IEA')
+           and e['code'] in ('001', '021', '022', '023', '024', '025', '3', '4', '5', '6', '23')]
+    if sorted(want) != got:
+        missing = [x for x in want if x not in got]
+        out.fail('validated:%s:seg/LX' % ('missing' if missing else 'spurious'),
+                 'groups %r: service-line errors at (isa, gs, st, pos) %r, recount says %r' % (parts, got, sorted(want)))
+    if env:
+        out.fail('validated:spurious:%s/%s' % env[0], 'consistent envelope of a mixed interchange drew %r' % env[:4])
+    out.classes = ['validated-mixed-interchange', 'lx-perturbed' if meta.get('lx_changed') else 'lx-consistent']
+    if len(parts) > 2 and parts[0] in parts[2:] and parts[1] != parts[0]:
+        out.classes.append('returns-to-earlier-map')
+    if any(p.startswith('837') for p in parts) and not all(p.startswith('837') for p in parts):
+        out.classes.append('837-and-other-maps')
+    out.nontrivial = len(parts) >= 2
+    out.key = text
+    return out
+
+
+def run_validated(n, seed, acc):
+    from hypothesis import strategies as st
+    from .. import docgen
+    from . import c02
+
+    @st.composite
+    def case(draw):
+        ch = docgen.HypChooser(draw)
+        try:
+            doc = c02.build_mixed(ch)
+        except docgen.GenFail:
+            return {'skip': 1}
+        changed = False
+        lxs = [sg for sg in doc.segs if sg.id == 'LX' and doc.parts and sg.node is not None and sg.chain and len(sg.chain) > 1]
+        # one service-line number of an 837 group changed
+        gi = -1
+        cand = []
+        for sg in doc.segs:
+            if sg.id == 'GS':
+                gi += 1
+            elif sg.id == 'LX' and 0 <= gi < len(doc.parts) and doc.parts[gi]['file'].startswith('837'):
+                cand.append(sg)
+        if cand and ch.chance(.4):
+            sg = cand[ch.integer(0, len(cand) - 1)]
+            sg.vals[0] = [str(int(sg.vals[0][0]) + ch.choice([1, 2, 5]))]
+            changed = True
+        return {'validated': True, 'text': doc.text(), 'meta': {'parts': [e['file'] for e in doc.parts], 'lx_changed': changed}}
+
+    def chk(c):
+        if 'skip' in c:
+            return core.Outcome(classes=['genfail:mixed'])
+        return check_validated(c)
+
+    core.hyp_collect(case(), chk, n, seed, acc, case_timeout=120)
+
+
 def check_case(case):
+    if case.get('validated'):
+        return check_validated(case)
     out = core.Outcome()
     esegs = expand(case['segs'])
     lx = bool(case.get('lx'))
@@ -370,11 +471,15 @@ def adversarial(case):
 def shards(tier, seed):
     n = 16
     per = 4000 if tier == 'thorough' else 500
-    return [{'kind': k, 'shard': i, 'n': per} for i in range(n // 2) for k in ('nested', 'arbitrary')]
+    return [{'kind': k, 'shard': i, 'n': per} for i in range(n // 2) for k in ('nested', 'arbitrary')] + \
+        [{'kind': 'validated', 'shard': i, 'n': 80 if tier == 'thorough' else 12} for i in range(8)]
 
 
 def run_shard(spec, seed, tier):
     acc = core.Acc()
+    if spec['kind'] == 'validated':
+        run_validated(spec['n'], seed * 1000 + 900 + spec['shard'], acc)
+        return acc
     nested, arbitrary = strategies(tier)
     if spec['kind'] == 'nested':
         core.hyp_collect(nested, check_case, spec['n'], seed * 1000 + spec['shard'], acc)
